@@ -8,3 +8,5 @@ REG_C16(SE3f, SE3f);
 REG_C16(Galileif, Galileif);
 REG_C16(SE23f, SE23f);
 REG_C16(BunF, BunF);
+REG_C16(SO2f, SO2f);
+REG_C16(C1f, C1f);
